@@ -150,7 +150,7 @@ func readMD(m metadata.MD) uint64 {
 	return s
 }
 
-// clientSide reads what gRPC allows a client to read once a stream has ended (RecvMsg returned an error).
+// afterEnd reads what gRPC allows a client to read once a stream has ended (RecvMsg returned an error).
 func afterEnd(g *G, cs grpc.ClientStream) {
 	h, _ := cs.Header()
 	g.sink += readMD(h) + readMD(cs.Trailer())
